@@ -25,6 +25,7 @@ extern  FileErrorFun    fileSetHandler     	(FileErrorFun);
 extern Hash     	fileHash        	(FileName);
 extern FILE *   	fileTryOpen     	(FileName, IOMode);
 extern FILE *   	fileMustOpen    	(FileName, IOMode);
+extern void		fileClose		(FILE *, FileName);
 extern Bool     	fileIsOpenable  	(FileName, IOMode);
 extern Bool		fileIsThere		(FileName);
 extern Length		fileSize		(FileName);
